@@ -104,29 +104,29 @@ From EV Require Import Model.Extract Model.E2E Model.RefEngine Model.E2EClosed P
 From EV Require Import Proofs.SearchDischarge.
 
 Theorem C02_closed_offsets : forall this_year s ra l,
-  s <> s_eyecite -> short_page_ok s -> search_residual (engine_search Gen.Unicode.U meta_table) ->
+  s <> s_eyecite -> short_page_ok s -> search_residual (engine_search UM meta_table) ->
   get_citations_closed this_year s ra = Ok l ->
   Forall (offsets_ok s) l.
 Proof. exact closed_offsets''. Qed.
 Print Assumptions C02_closed_offsets.
 
-Theorem C02_engine_contract : search_residual (engine_search Gen.Unicode.U meta_table) ->
-  search_ok (engine_search Gen.Unicode.U meta_table).
+Theorem C02_engine_contract : search_residual (engine_search UM meta_table) ->
+  search_ok (engine_search UM meta_table).
 Proof. exact search_ok_of_residual. Qed.
 Print Assumptions C02_engine_contract.
 
 Theorem C02_engine_pin_at_start : forall p w m, fwd_pat p = true ->
-  engine_search Gen.Unicode.U meta_table p w = Some m ->
+  engine_search UM meta_table p w = Some m ->
   forall a b, gspan g_pin_cite (m_groups m) = Some (a, b) -> a = 0%nat.
 Proof. exact E_pin_at_start. Qed.
 Print Assumptions C02_engine_pin_at_start.
 
-Theorem C02_engine_short_antecedent : forall w m, engine_search Gen.Unicode.U meta_table PShortAnte w = Some m ->
+Theorem C02_engine_short_antecedent : forall w m, engine_search UM meta_table PShortAnte w = Some m ->
   exists a b, gspan g_antecedent (m_groups m) = Some (a, b).
 Proof. exact E_short_ante. Qed.
 Print Assumptions C02_engine_short_antecedent.
 
-Theorem C02_engine_post_short_total : forall w, engine_search Gen.Unicode.U meta_table PPostShort w <> None.
+Theorem C02_engine_post_short_total : forall w, engine_search UM meta_table PPostShort w <> None.
 Proof. exact E_post_short_total. Qed.
 Print Assumptions C02_engine_post_short_total.
 
